@@ -63,6 +63,9 @@ struct PagePlan {
     /// The table gained a column after the statement was prepared: every page comes with
     /// three columns (and, unless the client asks the node to leave it out, their metadata).
     widened: bool,
+    /// The rows have fixed-size columns only (bigint, int), the second one NULL in every
+    /// third row.
+    fixed: bool,
 }
 
 #[derive(Debug, Clone)]
@@ -233,6 +236,12 @@ impl Script for C07Script {
                 r.push(Cell::Int(7));
             }
         }
+        if plan.fixed {
+            cols[1] = col("ks1", "t1", "n", CType::Int);
+            for (k, r) in rows.iter_mut().enumerate() {
+                r[1] = if (start + k) % 3 == 1 { Cell::Null } else { Cell::Int((start + k) as i32) };
+            }
+        }
         let last = j + 1 == plan.sizes.len();
         if plan.constant_state {
             self.delivered.insert(m, j + 1);
@@ -384,6 +393,7 @@ fn draw_page_plan(slow_allowed: bool) -> PagePlan {
         states,
         sick: None,
         widened: false,
+        fixed: false,
         fault_permille: [0, 0, 100, 300][tape::choose("c07:fault_rate", 4) as usize],
         fatal_allowed: tape::chance("c07:fatal_allowed", 1, 2),
         slow_allowed,
@@ -517,7 +527,20 @@ async fn main(plan: Plan) -> Outcome {
         manual_total += (consumer == 3) as u64;
         // 1 in 6 prepared queries: the table has gained a column since the statement was
         // prepared; the rows are read as dynamic rows (first column checked).
+        // 1 in 6 unprepared queries: a table with fixed-size columns only, one of them NULL in
+        // every third row (read as dynamic rows too).
+        let fixed = !use_prepared && tape::chance("c07:fixed_size_columns", 1, 6);
+        if fixed {
+            let mut w = world::world();
+            let mut s = w.script.take().unwrap();
+            if let Some(p) = s.as_any().downcast_mut::<C07Script>().unwrap().plans.get_mut(&m) {
+                p.fixed = true;
+            }
+            w.script = Some(s);
+            out.count("queries_on_fixed_size_columns_with_nulls", 1);
+        }
         let widened = use_prepared && tape::chance("c07:widened", 1, 6);
+        let dynamic_read = widened || fixed;
         if widened {
             let mut w = world::world();
             let mut s = w.script.take().unwrap();
@@ -569,7 +592,7 @@ async fn main(plan: Plan) -> Outcome {
                             return;
                         }
                     };
-                    if widened {
+                    if dynamic_read {
                         match rows.rows::<scylla::value::Row>() {
                             Ok(it) => {
                                 for r in it {
@@ -640,7 +663,7 @@ async fn main(plan: Plan) -> Outcome {
                 }
             };
             // (A widened table is read as dynamic rows; the first column is what counts.)
-            let typed = if widened { None } else { Some(()) };
+            let typed = if dynamic_read { None } else { Some(()) };
             let mut stream: std::pin::Pin<Box<dyn futures::Stream<Item = Result<(i64, String), String>>>> = if typed.is_some() {
                 match pager.rows_stream::<(i64, String)>() {
                     Ok(s) => Box::pin(s.map(|r| r.map_err(|e| e.to_string()))),
